@@ -645,3 +645,41 @@ Proof.
   intros H1 H2 H3 H4 H5 H6. destruct (move_entity_ok w sai srow dst sa da e vals nw dvals killed H1 H2 H3 H4 H5 H6) as (w' & A & B & C & D & _).
   exists w'. auto.
 Qed.
+
+(* ---------- the set of live entities is untouched by archetype moves ---------- *)
+Definition same_dom {V} (m m' : smap V) : Prop := forall k, sm_get k m = None <-> sm_get k m' = None.
+Lemma same_dom_refl {V} (m : smap V) : same_dom m m. Proof. intros k. reflexivity. Qed.
+Lemma same_dom_trans {V} (a b c : smap V) : same_dom a b -> same_dom b c -> same_dom a c.
+Proof. intros H1 H2 k. rewrite (H1 k). apply H2. Qed.
+Lemma upd_same_dom {V} (m : smap V) i f : same_dom m (upd_by_index m i f).
+Proof.
+  intros k. unfold upd_by_index. destruct (sget (slots m) i) as [s|] eqn:Es; [|reflexivity].
+  destruct (val s) as [v|] eqn:Ev; [|reflexivity]. unfold sm_get. cbn [slots].
+  destruct (N.eq_dec i (fst k)) as [<-|Hne].
+  - erewrite sget_supd_eq by eauto. rewrite Es. cbn [gen val]. rewrite Ev. destruct (gen s =? snd k); split; congruence.
+  - now rewrite sget_supd_neq by auto.
+Qed.
+Lemma set_loc_dom w e l w' : set_loc w e l = ROk tt w' -> same_dom (w_ents w) (w_ents w').
+Proof. unfold set_loc. destruct (sm_get e (w_ents w)); [|discriminate]. intros H. inversion H; subst. cbn [w_ents set_ents]. apply upd_same_dom. Qed.
+
+Lemma move_entity_dom w src dst nw w' : move_entity w src dst nw = ROk tt w' -> same_dom (w_ents w) (w_ents w').
+Proof.
+  unfold move_entity. destruct src as [sai srow]. destruct (slab_get (w_archs w) sai) as [sa|]; [|discriminate].
+  destruct (sai =? dst).
+  - destruct nw as [[c v]|]; [|intros H; inversion H; subst; apply same_dom_refl].
+    destruct (nget (a_rows sa) srow) as [[e vals]|]; [|discriminate]. destruct (col_index (a_comps sa) c); [|discriminate].
+    intros H. inversion H; subst. cbn [w_ents set_archs]. unfold drop_cval. destruct (ctag_has_drop _); apply same_dom_refl.
+  - destruct (slab_get (w_archs w) dst) as [da|]; [|discriminate]. destruct (nget (a_rows sa) srow) as [[e vals]|]; [|discriminate].
+    destruct (reserve_one da) as [da1 re]. destruct (merge_row _ _ _ _ _) as [[dvals killed]|]; [|discriminate].
+    set (w1 := fold_left _ killed w). assert (E1 : w_ents w1 = w_ents w) by apply drops_fold_ents.
+    set (w2 := set_archs w1 _).
+    destruct (set_loc w2 e (dst, nlen (a_rows da1))) as [[] w3|f w3] eqn:E3; cbn [rbind]; [|discriminate].
+    apply set_loc_dom in E3. change (w_ents w2) with (w_ents w1) in E3. rewrite E1 in E3.
+    set (r4 := match nget _ srow with Some _ => _ | None => _ end).
+    assert (H4 : forall w4, r4 = ROk tt w4 -> same_dom (w_ents w3) (w_ents w4)).
+    { intros w4. unfold r4. destruct (nget _ srow) as [[se sv]|]; [|intros H; inversion H; subst; apply same_dom_refl].
+      destruct (sm_get se (w_ents w3)); [|discriminate]. apply set_loc_dom. }
+    destruct r4 as [[] w4|f w4]; cbn [rbind]; [|discriminate]. specialize (H4 w4 eq_refl).
+    intros H. inversion H; subst. eapply same_dom_trans; [exact E3|]. eapply same_dom_trans; [exact H4|].
+    destruct (_ || _); destruct (nlen _ =? 0); rewrite ?notify_refresh_ents, ?notify_remove_ents; apply same_dom_refl.
+Qed.
